@@ -101,7 +101,7 @@ def strat_assign():
             regs[1] = dict(kind="nested", poly=[(cx + (x - cx) * 0.5, cy + (y - cy) * 0.5) for x, y in p0], valid=regs[0]["valid"], integer=False)
         lines = []
         for _ in range(draw(st.integers(0, 8))):
-            mode = draw(st.sampled_from(["inside", "inside", "cross", "span", "far", "random"]))
+            mode = draw(st.sampled_from(["inside", "inside", "cross", "span", "far", "random", "arch"]))
             r = regs[draw(st.integers(0, len(regs) - 1))]
             ys = [p[1] for p in r["poly"]]
             xs = [p[0] for p in r["poly"]]
@@ -130,14 +130,24 @@ def strat_assign():
                 x0 = draw(st.integers(0, 2200))
                 x1 = x0 + draw(st.integers(1, 900))
                 y = float(draw(st.integers(0, 2200)))
+            arch = None
+            if mode == "arch":
+                # end points above (or below) the region's bounding box, the middle bulges 10-60 px into it
+                x0, x1 = min(xs) + 5.0, max(xs) - 5.0
+                top = draw(st.booleans())
+                y_out = (min(ys) - draw(st.integers(3, 25))) if top else (max(ys) + draw(st.integers(3, 25)))
+                depth = draw(st.integers(10, 60)) * (1 if top else -1)
+                arch = (y_out, depth)
             if x1 - x0 < 1:
                 x0, x1 = x0 - 10, x0 + 10
-            npts = draw(st.integers(2, 5))
+            npts = draw(st.integers(2, 5)) if arch is None else draw(st.integers(3, 5))
             jit = draw(st.sampled_from([0.0, 0.0, 1.0, 2.0])) if mode != "inside" else draw(st.sampled_from([0.0, 1.0]))
             pts = []
             for k in range(npts):
                 px = x0 + (x1 - x0) * k / (npts - 1)
                 py = y + (jit * ((k % 2) * 2 - 1) if 0 < k < npts - 1 else 0.0)
+                if arch is not None:
+                    py = arch[0] + (arch[1] if 0 < k < npts - 1 else 0.0)
                 if integer:
                     px, py = float(round(px)), float(round(py))
                 pts.append((px, py))
